@@ -545,9 +545,27 @@ def run_edits(res, origin, raw, desc, rng, tier):
     edits_truncate_cvals(res, origin, raw, base_snap, desc)
 
 
+def older_sampler_layouts(res, rng, n):
+    """Sampler files in the layouts older SunVox versions wrote (envelopes only in the legacy fields of the instrument record,
+    shorter records, no signature), built without rv from the SunVox-written fixture: the documented conversion
+    (y * 0x200 + range minimum, counts, flag bits) is what loading must give.  Generator and oracle are C16's."""
+    from . import c16
+    from ..runner import Result
+    chunks = c16.fixture_chunks()
+    for k in range(n):
+        scratch = Result()
+        c16.check_legacy(scratch, chunks, rng, k)
+        res.count("older_sampler_layout_files")
+        res.evaluations += 1
+        for v in scratch.violations:
+            if ":legacy-conversion:" in v["key"] or ":legacy-unloadable:" in v["key"]:
+                res.violation(v["key"].replace("C16:", "C04:older-layout:", 1), v["what"], v.get("case"))
+
+
 def run_shard(spec_, res):
     if spec_.get("shard") == 0:
         nested_proxy_files(res, random.Random(spec_.get("seed", 0) + 3), 60 if spec_["tier"] == "quick" else 600)
+        older_sampler_layouts(res, random.Random(spec_.get("seed", 0) + 4), 40 if spec_["tier"] == "quick" else 400)
     import rv.api as api
     monitors.install()
     rng = random.Random(env.shard_seed(spec_["shard"]))
